@@ -224,6 +224,24 @@ func init() {
 			}
 			add("valid2/"+op, d, b, w2)
 		}
+		// 1b. file extensions (the mkdir / dry-run stages decide file vs. directory per node): several roots with
+		// several sibling files each, so that different workers handle files at the same time
+		{
+			const files3 = "- a\n  - f.go\n  - g.go\n- c\n  - h.go\n  - sub\n    - i.go\n    - j.go\n- e.go\n"
+			for _, op := range []string{"mkdir", "out-dry", "verify", "walk"} {
+				d := NewDrv(op, files3)
+				d.Exts = []string{".go"}
+				if op == "verify" {
+					d.Pre = map[string]byte{"a/f.go": 'f', "a/g.go": 'f', "c/h.go": 'f', "c/sub/i.go": 'f', "c/sub/j.go": 'f', "e.go": 'f'}
+				}
+				add("exts3/"+op, d, k1, w3)
+				if op == "mkdir" {
+					d2 := NewDrv(op, files3)
+					d2.Exts = []string{".go", "sub"}
+					add("exts3/"+op+"/w2", d2, k1, w2)
+				}
+			}
+		}
 		// 2. generator-stage failures: every non-empty subset of 3 roots has an empty item
 		for mask := 1; mask < 8; mask++ {
 			doc := ""
